@@ -292,8 +292,8 @@ theorem burnDeposits_total {s : State} {pid : Nat} (hb : s.gov = sumAmt s.deps) 
 
 theorem dropInactive_inv {s s' : State} {pid : Nat} (hsh : inactiveSettleShapeOk = true) (hi : Inv s)
     (h : dropInactive pid s = .ok s') : Inv s' := by
-  unfold dropInactive at h
-  simp only [refundRun_eq, burnRun_eq] at h
+  rw [dropInactive_eq] at h
+  unfold dropInactiveSpec at h
   split at h
   · cases h
   · rename_i p hp
@@ -567,7 +567,8 @@ theorem addDeposit_inv {s s' : State} {pid who amt : Nat} (hi : Inv s) (h : addD
 
 theorem submit_inv {s s' : State} {who : Addr} {msgs : List Msg} {initial : Nat} {exp : Bool} (hi : Inv s)
     (h : submit s who msgs initial exp = .ok s') : Inv s' := by
-  unfold submit at h
+  rw [submit_eq] at h
+  unfold submitSpec at h
   split at h
   · cases h
   · split at h
@@ -658,7 +659,8 @@ theorem step_inv (h1 : inactiveSettleShapeOk = true) (h2 : settleShapeOk = true)
     simp only [step, Model.C15.ofExcept]
     split
     · rename_i s' h
-      unfold vote at h
+      rw [vote_eq] at h
+      unfold voteSpec at h
       split at h
       · cases h
       · split at h
